@@ -121,6 +121,24 @@ impl<I: Interner> SubstitutionExt<I> for Substitution<I> {
     }
 }
 
+/// Verification hooks: the crate-private guidance helpers.
+#[cfg(chalk_verif)]
+pub mod verif {
+    pub use super::aggregate::{verif_is_trivial, verif_merge_into_guidance};
+    use super::SubstitutionExt;
+    use chalk_ir::interner::Interner;
+    use chalk_ir::{Canonical, Substitution};
+
+    /// See `SubstitutionExt::may_invalidate`.
+    pub fn verif_may_invalidate<I: Interner>(
+        interner: I,
+        new: &Substitution<I>,
+        current: &Canonical<Substitution<I>>,
+    ) -> bool {
+        new.may_invalidate(interner, current)
+    }
+}
+
 // This is a struct in case we need to add state at any point like in AntiUnifier
 struct MayInvalidate<I> {
     interner: I,
